@@ -166,6 +166,28 @@ def operand_text(body, op, depth=0):
         v = op.get("val")
         return str(v) if not isinstance(v, str) else "str"
     pl = op["pl"] if "pl" in op else op
+    # a field of a struct of the crate is rendered as `Struct.field`, whatever the access path to the struct value
+    # (a reference bound by a borrow-splitting helper, `self`, a Pin deref): renaming locals / restructuring helpers
+    # does not change it
+    if depth <= 8:
+        try:
+            o_ = body.origin(op if "k" in op else {"k": "copy", "pl": pl}, through_calls=True)
+        except Exception:
+            o_ = ("?",)
+        if o_[0] == "place":
+            pr_ = o_[1]["p"]
+            idx_ = [k for k, p in enumerate(pr_) if isinstance(p, dict) and "f" in p and p.get("adt") and not str(p["adt"]).startswith("std::") and not str(p["adt"]).startswith("core::ops")]
+            if idx_:
+                k0 = idx_[-1]
+                parts = ["%s.%s" % (short_ty(re.sub(r"<.*", "", pr_[k0]["adt"])), pr_[k0].get("n") if pr_[k0].get("n") is not None else pr_[k0]["f"])]
+                for p in pr_[k0 + 1:]:
+                    if isinstance(p, dict) and "f" in p:
+                        parts.append(str(p["n"] if p.get("n") is not None else p["f"]))
+                    elif isinstance(p, dict) and "dc" in p:
+                        parts.append(str(p["dc"]))
+                    elif isinstance(p, dict) and "idx" in p:
+                        parts.append("[]")
+                return ".".join(parts)
     proj = []
     for p in pl["p"]:
         if isinstance(p, dict) and "f" in p:
@@ -491,6 +513,13 @@ def d_guard(site):
                             return "D-guard: place assigned %s(..) at %s:%d before the unwrap" % (var, body.fn["file"], st["line"])
     if o[0] == "agg" and o[2]["rv"].get("variant") in ("Some", "Ok"):
         return "D-guard: value is a literal %s(..)" % o[2]["rv"]["variant"]
+    # flattened bodies: the definitions that actually reach the unwrap are all the succeeding variant (the paths that
+    # carry the other variant were separated by jump threading and end before this site)
+    if site.operand.get("k") in ("move", "copy") and not site.operand["pl"]["p"] and body.fn.get("flat"):
+        rvs = body.reaching_variants(site.operand["pl"]["l"], site.bb)
+        good_v = {"some": {"Some"}, "ok": {"Ok"}, "err": {"Err"}}[want]
+        if rvs and rvs <= good_v:
+            return "D-guard: every definition that reaches the unwrap is a literal %s(..)" % sorted(rvs)[0]
     # the value is built on several branches (an expanded `map`, a hand-written match): every branch that builds the
     # failing variant is taken only on an edge that a dominating guard excludes
     if o[0] == "multi" and site.operand.get("k") in ("move", "copy"):
@@ -821,6 +850,107 @@ def d_cmp(site):
     return None
 
 
+RXS_ = "io::packet_stream::RxPacketStream"
+
+
+def _sfield(body, x):
+    """(field, sub-field) of RxPacketStream an operand denotes: ('size', None), ('packet', 'end') ..."""
+    if x is None or x.get("k") == "const":
+        return None
+    o = body.origin(x, through_calls=True)
+    if o[0] != "place":
+        return None
+    fs = place_fields(o[1])
+    for k, (a, n) in enumerate(fs):
+        if a == RXS_:
+            sub = fs[k + 1][1] if k + 1 < len(fs) else None
+            return (n, sub)
+    return None
+
+
+def _size_ge_packet_end(body, bb):
+    """A dominating edge on which `size >= packet.end` holds (the complete packet is in the buffer)."""
+    for (d, s_) in dominating_edges(body, bb):
+        c = Cond(body, d)
+        if c.kind != "cmp" or c.holds_on(s_) is None:
+            continue
+        for x, y, op in ((c.a, c.b, c.op), (c.b, c.a, {"Lt": "Gt", "Gt": "Lt", "Le": "Ge", "Ge": "Le", "Eq": "Eq", "Ne": "Ne"}[c.op])):
+            if _sfield(body, x) == ("size", None) and _sfield(body, y) == ("packet", "end"):
+                eff = op if c.holds_on(s_) else {"Lt": "Ge", "Ge": "Lt", "Gt": "Le", "Le": "Gt", "Eq": "Ne", "Ne": "Eq"}[op]
+                if eff in ("Ge", "Gt", "Eq"):
+                    return d
+    return None
+
+
+def _packet_start_is_zero(body):
+    """Every write to RxPacketStream.packet.start in this unit stores the constant 0 (and the field is created 0..0)."""
+    ok, n = True, 0
+    for i in sorted(body.reach):
+        for st in body.blocks[i]["stmts"]:
+            if st["k"] != "assign":
+                continue
+            fs = place_fields(st["lhs"])
+            if not fs and "deref" in st["lhs"]["p"]:
+                sf = _sfield(body, {"k": "copy", "pl": {"l": st["lhs"]["l"], "p": []}})
+                fs = [(RXS_, sf[0]), ("std::ops::Range", sf[1])] if sf else []
+            names = [n_ for a_, n_ in fs]
+            if "packet" in names and (names[-1] == "start" or names[-1] == "packet"):
+                n += 1
+                if names[-1] == "start":
+                    ok = ok and st["rv"]["k"] == "use" and body.fold(st["rv"]["op"]) == 0
+                else:
+                    ok = False
+    return ok
+
+
+def d_stream(site):
+    """Arithmetic of RxPacketStream::poll_next that rests on what the framer itself established a few statements
+    earlier (the relations are read off the unit's own guards and statements, not off names):
+    (a) size + n, n the count returned by poll_read into buf[size .. size + chunk]: n <= chunk and size + chunk was
+        computed (overflow-checked) for the resize;
+    (b) size - packet.len() / size - packet.end and buf.split_to(packet.end) on an edge where size >= packet.end holds,
+        with packet.start only ever 0 (so packet.len() == packet.end)."""
+    body = site.body
+    if not strip_generics(body.path).endswith("poll_next") or RXS_ not in body.path:
+        return None
+    if site.kind == "assert" and site.extra["msg"].startswith("Overflow(Add)"):
+        a, b = site.extra["ops"]
+        for x, y in ((a, b), (b, a)):
+            if _sfield(body, x) == ("size", None) and y.get("k") != "const" and any(q[0] == "call" and q[1].endswith("poll_read") for q in body.atoms(y)):
+                for i, t in body.calls(r"AsyncRead::poll_read$"):
+                    if not body.dominates(i, site.bb):
+                        continue
+                    dst = body.origin(t["ops"][2]) if len(t["ops"]) > 2 else ("?",)
+                    if dst[0] == "call" and (callee_name(dst[2]) or "").endswith("index_mut"):
+                        rng = symex(body, dst[2]["ops"][1])
+                        if rng[0] == "agg" and len(rng[2]) == 2 and rng[2][1][0] == "bin" and rng[2][1][1] == "Add" and rng[2][0] in (rng[2][1][2], rng[2][1][3]):
+                            st_leaf = [l for l in sym_leaves(rng[2][0]) if l[0] == "place"]
+                            if st_leaf and any((RXS_, "size") in set(l[2]) for l in st_leaf):
+                                return "D-stream: size + n with n the byte count of a read into buf[size..size+chunk] (n <= chunk, and size + chunk was computed without overflow for that slice at %s)" % body.site(i)
+    if site.kind == "assert" and site.extra["msg"].startswith("Overflow(Sub)"):
+        a, b = site.extra["ops"]
+        if _sfield(body, a) == ("size", None):
+            fb = _sfield(body, b)
+            is_len = b.get("k") != "const" and any(q[0] == "call" and q[1].endswith("::len") for q in body.atoms(b)) and \
+                any(q[0] == "field" and q[1] == RXS_ and q[2] == "packet" for q in body.atoms(b))
+            if fb == ("packet", "end") or is_len:
+                g = _size_ge_packet_end(body, site.bb)
+                if g is not None and (fb == ("packet", "end") or _packet_start_is_zero(body)):
+                    return "D-stream: size - (length of the packet) on the edge size >= packet.end established at %s (packet.start is only ever 0)" % body.site(g)
+    if site.kind == "bytes" and "split_to" in site.what and site.term is not None and len(site.term["ops"]) >= 2:
+        t = site.term
+        if _sfield(body, t["ops"][0]) == ("buf", None):
+            n = t["ops"][1]
+            o = body.origin(n, through_calls=False)
+            if o[0] == "call" and (callee_name(o[2]) or "").endswith("mem::replace"):
+                n = o[2]["ops"][0]
+            if _sfield(body, n) == ("packet", "end") or (n.get("k") != "const" and _sfield(body, {"k": "copy", "pl": {"l": n["pl"]["l"], "p": []}}) == ("packet", "end")):
+                g = _size_ge_packet_end(body, site.bb)
+                if g is not None:
+                    return "D-stream: buf.split_to(packet.end) on the edge size >= packet.end established at %s (buf is resized to at least `size` bytes before every read and shrinks only by this split)" % body.site(g)
+    return None
+
+
 def d_build(ctx, site):
     """`XBuilder::build().unwrap()` where every mandatory field's setter is called on the same builder before the
     build on all paths and the builder has no validate() hook that could refuse."""
@@ -991,7 +1121,7 @@ def discharge(ctx, site, ledger):
     r = d_derive(site)
     if r:
         return r
-    for f in (d_const, d_guard, d_memlen, d_lenfit, d_len, d_cmp, d_quota, d_posindex, d_keydomain):
+    for f in (d_const, d_guard, d_memlen, d_lenfit, d_len, d_cmp, d_quota, d_posindex, d_keydomain, d_stream):
         r = f(site)
         if r:
             return r
